@@ -181,6 +181,13 @@ def main(tier):
     for L, spec in class_slices(tier):
         for sh, it in budgets:
             jobs.append({'L': L, 'spec': spec, 'shorts': sh, 'intrs': it})
+    # buffers longer than the frame (a short reply at the head of a long buffer, a long frame followed by more bytes):
+    # the reader and the slice entry point must agree there too, with and without a fault
+    tcq = 'z3.LShR(b[4],3)'
+    for L, spec in ((14, ['z3.LShR(b[0],3)==11']), (9, ['z3.LShR(b[0],3)==4']),
+                    (16, ['z3.LShR(b[0],3)==17', '(b[0]&7)==5', tcq + '==11']), (15, ['z3.LShR(b[0],3)==20', 'b[4]==0x10'])):
+        for sh, it in ([(0, 0), (1, 0)] if tier == 'quick' else [(0, 0), (1, 0), (0, 1), (1, 1)]):
+            jobs.append({'L': L, 'spec': spec, 'shorts': sh, 'intrs': it})
     V.build_replay('debug')
     V.build_replay('release')
     results = fw.run_jobs('checks.c19', jobs, files, dirs)
